@@ -467,6 +467,9 @@ pub struct YamlSerializer<'a, W: Write> {
     after_dash_depth: Option<usize>,
     /// Current block map indentation depth (for aligning sequences under a map key).
     current_map_depth: Option<usize>,
+    /// Column at which the key of the mapping entry being written starts (block style). A block
+    /// scalar written as that entry's value puts its body one indentation step deeper than this.
+    current_key_col: Option<usize>,
     /// If true, quote all string scalars. Uses single quotes by default, but switches to
     /// double quotes when the string contains escape sequences or single quotes.
     quote_all: bool,
@@ -508,6 +511,7 @@ impl<'a, W: Write> YamlSerializer<'a, W> {
             last_value_was_block: false,
             after_dash_depth: None,
             current_map_depth: None,
+            current_key_col: None,
             quote_all: false,
             yaml_12: false,
             doc_started: false,
@@ -667,14 +671,9 @@ impl<'a, W: Write> YamlSerializer<'a, W> {
 
     /// Write a folded block string body, wrapping to `folded_wrap_col` characters.
     /// Delegates to the standalone function in `wrapping` module.
-    fn write_folded_block(&mut self, s: &str, indent: usize) -> Result<()> {
-        crate::wrapping::write_folded_block(
-            self.out,
-            s,
-            indent,
-            self.indent_step,
-            self.folded_wrap_col,
-        )?;
+    fn write_folded_block(&mut self, s: &str, indent_spaces: usize) -> Result<()> {
+        // The body indentation is given in columns (step 1).
+        crate::wrapping::write_folded_block(self.out, s, indent_spaces, 1, self.folded_wrap_col)?;
         self.at_line_start = true;
         Ok(())
     }
@@ -1158,6 +1157,12 @@ impl<'a, 'b, W: Write> Serializer for &'a mut YamlSerializer<'b, W> {
             // has leading whitespace, so the parser knows how much to strip.
             let body_base = base + 1;
             let indent_n = self.indent_step;
+            // As a mapping value the body goes one step deeper than the key's own column (which is
+            // not a multiple of the indentation step when the mapping started after a dash).
+            let body_spaces = match self.current_key_col {
+                Some(col) if was_map_value => col + self.indent_step,
+                _ => self.indent_step * body_base,
+            };
 
             // Check if we need an explicit indentation indicator.
             // Required when the first non-empty line has leading whitespace.
@@ -1205,7 +1210,7 @@ impl<'a, 'b, W: Write> Serializer for &'a mut YamlSerializer<'b, W> {
                     // should produce a single empty content line (tests expect this for "\n").
                     // Precompute body indent string once for the entire block
                     let mut indent_buf: String = String::new();
-                    let spaces = self.indent_step * body_base;
+                    let spaces = body_spaces;
                     if spaces > 0 {
                         indent_buf.reserve(spaces);
                         for _ in 0..spaces {
@@ -1259,7 +1264,7 @@ impl<'a, 'b, W: Write> Serializer for &'a mut YamlSerializer<'b, W> {
                     // Note: Explicit FoldStr/FoldString wrappers historically used plain '>'
                     // regardless of trailing newline; keep that behavior for compatibility.
                     self.newline()?;
-                    self.write_folded_block(v, body_base)?;
+                    self.write_folded_block(v, body_spaces)?;
                 }
             }
             // reset auto flag after using pending style
@@ -1443,11 +1448,16 @@ impl<'a, 'b, W: Write> Serializer for &'a mut YamlSerializer<'b, W> {
             // Ensure that if the value is another variant or a mapping/sequence,
             // it indents under this variant label rather than the parent map key.
             let prev_map_depth = self.current_map_depth.replace(base + 1);
+            // The label just written is the key the payload hangs on.
+            let prev_key_col = self.current_key_col.replace(self.indent_step * (base + 1));
             let res = value.serialize(&mut *self);
+            self.current_key_col = prev_key_col;
             self.current_map_depth = prev_map_depth;
             return res;
         }
         // Otherwise (top-level or sequence context).
+        // (The label's column is not tracked here: the payload falls back to depth-based layout.)
+        let prev_key_col = self.current_key_col.take();
         if self.at_line_start {
             self.write_indent(self.depth)?;
         }
@@ -1462,14 +1472,16 @@ impl<'a, 'b, W: Write> Serializer for &'a mut YamlSerializer<'b, W> {
         // If this variant is inside a block sequence element (`- Variant:`), ensure the nested
         // value indents under the variant label rather than aligning with the list indentation.
         // SeqSer stores the dash's indentation depth in `after_dash_depth`.
-        if let Some(d) = self.after_dash_depth.take() {
+        let res = if let Some(d) = self.after_dash_depth.take() {
             let prev_map_depth = self.current_map_depth.replace(d + 1);
             let res = value.serialize(&mut *self);
             self.current_map_depth = prev_map_depth;
             res
         } else {
             value.serialize(&mut *self)
-        }
+        };
+        self.current_key_col = prev_key_col;
+        res
     }
 
     // -------- Collections --------
@@ -2304,7 +2316,16 @@ impl<'a, 'b, W: Write> SerializeMap for MapSer<'a, 'b, W> {
                 self.ser.depth = self.depth;
             }
             let prev_map_depth = self.ser.current_map_depth.replace(self.depth);
+            // Keys of a map that started inline after a dash sit two columns in from the dash,
+            // not at a whole indentation step.
+            let key_col = if self.align_after_dash {
+                self.ser.indent_step * self.depth.saturating_sub(1) + 2
+            } else {
+                self.ser.indent_step * self.depth
+            };
+            let prev_key_col = self.ser.current_key_col.replace(key_col);
             let result = value.serialize(&mut *self.ser);
+            self.ser.current_key_col = prev_key_col;
             self.ser.current_map_depth = prev_map_depth;
             // Always restore the parent's pending_inline_map to avoid leaking inline hints
             // across sibling values (e.g., after finishing a sequence value like `groups`).
@@ -2405,7 +2426,9 @@ impl<'a, 'b, W: Write> SerializeStructVariant for StructVariantSer<'a, 'b, W> {
         self.ser.at_line_start = false;
         // Ensure nested mappings/collections used as this field's value indent relative to this struct variant.
         let prev_map_depth = self.ser.current_map_depth.replace(self.depth);
+        let prev_key_col = self.ser.current_key_col.replace(self.ser.indent_step * self.depth);
         let result = value.serialize(&mut *self.ser);
+        self.ser.current_key_col = prev_key_col;
         self.ser.current_map_depth = prev_map_depth;
         result
     }
